@@ -11,6 +11,13 @@ REPO = os.environ.get("PYVC_REPO", "/repo")
 NATIVE_PY = "/venv/bin/python"
 
 PLANS = {
+    "C04": {
+        "level": "proof",
+        "sidecars": ["debump", "driver", "quatfit"],
+        "extras": [{"name": "c04_torsion_rank_table", "module": "tables.x_checks", "func": "c04_torsion_ranks", "python": "vt"}],
+        "explanation": "set_dihedral_angle frame + rigid rotation, debump_residue frame, option flags (call trace), "
+                       "template rank table X",
+    },
     "C12": {
         "level": "proof",
         "sidecars": ["driver", "charges"],
